@@ -981,3 +981,129 @@ pub fn gen_conv(g: &mut G<'_>, o: &ConvOpts) -> Conversation {
     }
     c
 }
+
+// ------------------------------------------------------------------------------------------
+// rows laid out against the packet boundaries
+
+fn lenenc_prefix(n: usize) -> usize {
+    if n < 251 {
+        1
+    } else if n < 65_536 {
+        3
+    } else if n < (1 << 24) {
+        4
+    } else {
+        9
+    }
+}
+
+/// One row of 2-6 cells whose encoded form is longer than a wire packet (2^24-1 bytes) and whose
+/// cell boundaries are placed on purpose relative to the packet boundaries of the row message:
+/// "fill" cells end within +-12 bytes of a multiple of 2^24-1 (so that whatever follows - an
+/// integer, a short string, a NULL marker, another big value - starts before, at or after the
+/// boundary, or straddles it), "exact" cells have lengths around 1x, 2x and 3x the packet size,
+/// and small cells sit before, between and after them.  The row takes 17-70 MB on the wire.
+/// `bin`: laid out for the binary protocol (fixed-width integers, 0x00 header and NULL bitmap).
+pub fn gen_big_layout_row(g: &mut G<'_>, bin: bool) -> (Vec<ColSpec>, RowProg) {
+    const U: usize = crate::wire::MAX_PAYLOAD;
+    let ncells = g.usize_in(2, 6);
+    let bitmap = if bin { 1 + (ncells + 7 + 2) / 8 } else { 0 };
+    let mut off = bitmap;
+    let mut cols = Vec::new();
+    let mut cells = Vec::new();
+    let mut bigs = 0;
+    for i in 0..ncells {
+        let room = off < 3 * U + U / 4;
+        let want_big = room && (bigs == 0 && i + 1 == ncells || g.chance(if bigs == 0 { 1 } else { 2 }, 3 + bigs as u64));
+        if want_big {
+            bigs += 1;
+            let len = if g.chance(2, 3) {
+                // fill: end at k*U + d
+                let k = off / U + 1 + (if off < U && g.chance(1, 4) { 1 } else { 0 }) + (if off < U && g.chance(1, 10) { 1 } else { 0 });
+                let d = g.irange(-12, 12) as i64;
+                let target = (k * U) as i64 + d;
+                let t = (target - off as i64).max(70_000) as usize;
+                let l = t.saturating_sub(4);
+                if l >= (1 << 24) {
+                    t - 9
+                } else {
+                    l
+                }
+            } else {
+                let base = *g.pick(&[U, U, 1 << 24, 2 * U, 3 * U]);
+                (base as i64 + g.irange(-12, 12) as i64) as usize
+            };
+            let seed = g.raw();
+            off += lenenc_prefix(len) + len;
+            cols.push(ColSpec::simple(&format!("c{}", i), *g.pick(&[T_LONG_BLOB, T_BLOB, T_VAR_STRING]), 0));
+            cells.push(if g.coin() { Val::plain(Base::BigBytes { seed, len }) } else { Val { base: Base::BigBytes { seed, len }, wrap: *g.pick(&[Wrap::Ref, Wrap::Some]) } });
+        } else {
+            match g.weighted(&[4, 2, 2, 1, 1]) {
+                0 => {
+                    let v = g.i64_biased();
+                    off += if bin { 8 } else { 1 + v.to_string().len() };
+                    cols.push(ColSpec::simple(&format!("c{}", i), T_LONGLONG, 0));
+                    cells.push(Val::plain(Base::I64(v)));
+                }
+                1 => {
+                    let v = g.u64_biased() as u32;
+                    off += if bin { 4 } else { 1 + v.to_string().len() };
+                    cols.push(ColSpec::simple(&format!("c{}", i), T_LONG, FLAG_UNSIGNED));
+                    cells.push(Val::plain(Base::U32(v)));
+                }
+                2 => {
+                    let n = g.usize_in(0, 30);
+                    let b = g.bytes(n);
+                    off += 1 + n;
+                    cols.push(ColSpec::simple(&format!("c{}", i), T_VAR_STRING, 0));
+                    cells.push(Val::plain(Base::Slice(b)));
+                }
+                3 => {
+                    off += if bin { 0 } else { 1 };
+                    cols.push(ColSpec::simple(&format!("c{}", i), T_LONG, 0));
+                    cells.push(Val { base: Base::I32(0), wrap: Wrap::None });
+                }
+                _ => {
+                    let v = g.byte();
+                    off += if bin { 1 } else { 1 + v.to_string().len() };
+                    cols.push(ColSpec::simple(&format!("c{}", i), T_TINY, FLAG_UNSIGNED));
+                    cells.push(Val::plain(Base::U8(v)));
+                }
+            }
+        }
+    }
+    let form = match g.weighted(&[3, 1, 3, 1]) {
+        0 => RowForm::WriteRow,
+        1 => RowForm::WriteRowRef,
+        2 => RowForm::Cols,
+        _ => RowForm::Mixed(g.usize_in(1, ncells - 1)),
+    };
+    (cols, RowProg { cells, form, offers: vec![] })
+}
+
+/// how a big-layout row relates to the packet boundaries (for the evidence histogram)
+pub fn classify_big_layout(row: &RowProg) -> Vec<&'static str> {
+    const U: usize = crate::wire::MAX_PAYLOAD;
+    let mut v = Vec::new();
+    let big: Vec<usize> = row.cells.iter().filter_map(|c| if let Base::BigBytes { len, .. } = &c.base { Some(*len) } else { None }).collect();
+    if big.len() >= 2 {
+        v.push("row-with->=2-cells-longer-than-a-packet-or-near");
+    }
+    if big.iter().any(|&l| l >= 3 * U - 16) {
+        v.push("cell>=3-packets");
+    } else if big.iter().any(|&l| l >= 2 * U - 16) {
+        v.push("cell>=2-packets");
+    }
+    if big.iter().sum::<usize>() >= 3 * U {
+        v.push("row>=3-packets");
+    }
+    if let Some(p) = row.cells.iter().position(|c| matches!(c.base, Base::BigBytes { .. })) {
+        if p + 1 < row.cells.len() {
+            v.push("cells-after-the-first-big-one");
+        }
+        if p > 0 {
+            v.push("cells-before-the-first-big-one");
+        }
+    }
+    v
+}
